@@ -20,6 +20,8 @@ pub enum EquivAny {
     Composite(crate::checks::composite::CompositeCase),
     /// in-degrees of 2^16 and beyond
     HugeFan(crate::checks::hugefan::HugeFan),
+    /// 30-300 arguments, merges judged exactly by SAT (equiv_large.rs)
+    Large(crate::checks::equiv_large::LargeEquiv),
 }
 
 #[derive(Clone, PartialEq, Eq, Debug)]
@@ -271,7 +273,8 @@ impl Prop for Equiv {
             }
             EquivAny::HugeFan(h)
         });
-        prop_oneof![6000 => small, 20 => composite, 2 => huge].boxed()
+        let large = crate::checks::equiv_large::strategy().prop_map(EquivAny::Large);
+        prop_oneof![6000 => small, 20 => composite, 2 => huge, 12 => large].boxed()
     }
     fn n_cases(&self, tier: Tier) -> u32 {
         tier.pick(2_000_000, 20_000_000)
@@ -310,6 +313,7 @@ impl Prop for Equiv {
                 return run_composite(&cc, rec);
             }
             EquivAny::HugeFan(h) => return crate::checks::hugefan::run_equiv(h, rec),
+            EquivAny::Large(l) => return crate::checks::equiv_large::run(l, rec),
         };
         rec.class(&format!("pres-{}", case.pres.kind()));
         match build(case) {
